@@ -159,6 +159,35 @@ PROPS['C11'] = dict(
     not_decided=['digit strings -> numbers', 'record sequences end-to-end'],
 )
 
+PROPS['C20'] = dict(
+    category='other',
+    technique='Kani contracts on the real iterator: loop-free full-domain harness for the constructor and repeat points; bounded harnesses on listed parameter values for the closed forms and the zero-tick stream',
+    level_text='proved (Kani, every f64 parameter): SliderEventsIter::new empties the reusable buffer whatever it held, clamps the tick distance into [0, len], caps len at 100000; new_repeat_point closed form. Bounded stand-ins (listed parameter values): Head / LastTick / Tail closed forms incl. mirrored progress on even span counts, Done stays Done, zero tick distance yields every repeat and no tick for 1..4 spans with a stale buffer. Tick-bearing streams (order, mirroring, suppression near the end) are thorough-tier only: CBMC does not fold the float loop guards and needs long runs',
+    level_note='assumed: total distance >= 0 (f64::clamp(0, len) panics otherwise; callers pass Curve::dist()); termination of the tick loop for tiny positive tick distances is not decided; callers in encode.rs deriving the parameters are not covered',
+    verus=[], kani=['c20.kc'],
+    kani_functions=['src/section/hit_objects/slider/event.rs :: impl SliderEventsIter :: fn new', 'src/section/hit_objects/slider/event.rs :: impl Iterator for SliderEventsIter :: fn next',
+                    'src/section/hit_objects/slider/event.rs :: fn generate_ticks', 'src/section/hit_objects/slider/event.rs :: fn new_repeat_point'],
+    explanation='see level_text; per-obligation statements in coverage.samples[].states',
+    trusted_base=COMMON_TRUST, assumptions=['total_dist >= 0 or NaN-free as produced by Curve::dist()'],
+    not_decided=['tick placement for arbitrary real parameters', 'slider_events / juicestream_events parameter derivation in encode.rs', 'termination'],
+)
+
+PROPS['C14'] = dict(
+    category='other',
+    technique='Verus contract on the extracted convert_sound_type (unbounded over all inputs); Kani full-domain contracts for the sample constructor and flag codecs; Kani text-template harnesses for the line grammar and the path-string rules',
+    level_text='proved (Verus): SampleBankInfo::convert_sound_type yields [normal-or-file] then finish, whistle, clap in that order exactly when flagged, with the documented banks / index / volume / layering, for every sound byte and bank info. proved (Kani): HitSampleInfo::new suffix guard, sound / bank number codecs. Bounded stand-ins (listed templates, every numeric value and rejection point): kind by flag precedence, position truncation and limits, combo rules, forced new combo, hold end time, slider/spinner field requirements, path-string conversion (first point at origin and typed, no residue, split buffer emptied)',
+    level_note='assumed: std text->number conversion replaced by token-deterministic nondeterministic results; in line harnesses convert_sound_type is replaced by a marker (the real one is the Verus obligation); text shapes outside the templates, PathType letters beyond B/L/P in templates, collinear-perfect-curve downgrade and duplicate-point splitting values are not decided',
+    verus=[dict(unit='hs', tier='quick')],
+    kani=['support.kc', 'hit_samples.kc', 'ho_lines.kc'],
+    only_prefix=['hs_', 'ho_line_', 'ho_path_one', 'ho_path_two', 'ho_slider_'],
+    kani_functions=['src/section/hit_objects/hit_samples.rs :: impl HitSampleInfo :: fn new', 'src/section/hit_objects/hit_samples.rs :: impl From<&[HitSampleInfo]> for HitSoundType',
+                    'src/section/hit_objects/hit_samples.rs :: impl TryFrom<i32> for SampleBank', 'src/section/hit_objects/decode.rs :: impl DecodeBeatmap for HitObjects :: fn parse_hit_objects',
+                    'src/section/hit_objects/decode.rs :: impl HitObjectsState :: fn convert_path_str / convert_points / point_split'],
+    explanation='see level_text; per-obligation statements in coverage.samples[].states',
+    trusted_base=COMMON_TRUST + ['contracts/support.kc stand-ins', 'hs unit: HitSampleInfo::new is external_body with the contract proved by Kani obligation hs_hit_sample_info_new'],
+    assumptions=[], not_decided=['text outside the templates', 'digit strings -> numbers', 'read_custom_sample_banks field rules'],
+)
+
 NOT_APPLICABLE = {
     'C02': 'whole-text round trip through core::fmt float printing and dec2flt: no contract on one function links encode output to decode input, and neither verifier executes fmt/parse on symbolic values; the expressible codec-pair lemmas are decided under C11/C13/C14/C04',
     'C03': 'same as C02 (edited values travel through write! and str::parse); the first-colon rule it singles out is a contract on KeyValue::parse decided under C11',
